@@ -1,7 +1,8 @@
 (* C12 -- Command line: every argv is parsed safely and means what the help text says.
    Only statements; every proof is `exact <lemma>` into C12_Proofs.v / C12_Meaning.v / C12_Select.v / C12_Safe.v. *)
 From Coq Require Import NArith ZArith Bool List.
-From CppUVerif Require Import gen.Gen_C12 lib.Str C13_Model C12_Model C12_Proofs C12_Meaning C12_Select C12_Checked C12_Safe C12_Examples.
+From Coq Require Import Permutation.
+From CppUVerif Require Import gen.Gen_C12 lib.Str C13_Model C12_Model C12_Proofs C12_Meaning C12_Select C12_Checked C12_Safe C12_Apply C12_ApplyProofs C12_Examples.
 Import ListNotations.
 Local Open Scope N_scope.
 
@@ -89,7 +90,102 @@ Theorem C12_xt_help_old_refuted : ~ xt_help_old_stmt.
 Proof. exact xt_help_old_refuted. Qed.
 Print Assumptions C12_xt_help_old_refuted.
 
-(* the executable oracle used on the implementation's observations accepts every observation of the model *)
-Theorem C12_run_meets_spec : forall tm argv opts, valid tm argv = true -> spec tm argv opts (run tm argv) = true.
+(* the executable oracle of the parse part accepts every observation of the model *)
+Theorem C12_parse_meets_spec : forall tm argv opts, valid tm argv = true -> spec tm argv opts (run tm argv) = true.
 Proof. exact run_meets_spec. Qed.
+Print Assumptions C12_parse_meets_spec.
+
+(* ------------------------------------------------------------ the runner applies the configuration (C12_Apply.v)
+   apply c = what a recording output and 18 recording probe tests (4 of them IGNORE_TESTs) see of CommandLineTestRunner
+   (accepted branch of parseArguments, initializeTestRun, runAllTests) for configuration c, up to REP_CAP repetitions *)
+
+(* for EVERY configuration: the first output created is of the configured kind (JUnit: with the package name); every output created
+   got the highest verbosity level asked for and the colour; a list mode prints its listing (entries without repetition, covering
+   the selected tests, naming only existing ones) and runs nothing; otherwise there are exactly repeat-count repetitions and each
+   one runs the selected tests -- in the normal order, or backwards under -b, in EVERY repetition; under -s srand got the configured
+   seed and a permutation of the selected tests ran -- ignored tests run exactly under -ri, and every started test was switched to
+   separate-process mode exactly under -p *)
+Theorem C12_apply_documented : forall c, c_repeat c <= REP_CAP ->
+  exists outs text reps, apply c = AApplied outs text reps /\
+    (exists o rest, outs = o :: rest /\ o_kind o = c_out c /\ (c_out c = OJUnit -> o_pkg o = c_pkg c)) /\
+    (forall o, In o outs -> o_level o = doc_level c /\ o_color o = c_color c) /\
+    (list_mode c = true -> reps = [] /\ doc_list_ok c text = true) /\
+    (list_mode c = false -> length reps = N.to_nat (c_repeat c) /\ forall r, In r reps ->
+       r_level r = doc_level c /\ r_color r = c_color c /\
+       (c_shuf c = false -> r_seeds r = [] /\ r_started r = (if c_rev c then rev (natural c) else natural c)) /\
+       (c_shuf c = true -> r_seeds r = [c_seed c mod 4294967296] /\ Permutation (r_started r) (natural c)) /\
+       r_ran r = List.filter (fun i => negb (ignored_id i) || c_runign c) (r_started r) /\
+       r_sep r = (if c_sep c then r_started r else [])).
+Proof. exact apply_documented. Qed.
+Print Assumptions C12_apply_documented.
+
+(* the flags of the documented configuration of an option sequence: set exactly when the option occurs, wherever and however often *)
+Theorem C12_flags_any_order : forall tm opts c, sem tm opts = Accept c ->
+  c_verbose c = asks DVerbose opts /\ c_veryverbose c = asks DVeryVerbose opts /\ c_color c = asks DColor opts /\
+  c_sep c = asks DSepProcess opts /\ c_listg c = asks DListGroups opts /\ c_listn c = asks DListNames opts /\
+  c_listl c = asks DListLocations opts /\ c_runign c = asks DRunIgnored opts /\ c_rev c = asks DReverse opts /\
+  c_shuf c = asks_shuffle opts.
+Proof. exact sem_flags. Qed.
+Print Assumptions C12_flags_any_order.
+
+(* every spelling of every sequence of documented options (values of the claimed shapes, no -h): accepted, and what the runner does
+   is the documented meaning of what the vector asks for *)
+Theorem C12_vector_applied : forall tm prog opts argv,
+  forallb opt_ok opts = true -> In argv (render opts) -> existsb is_help opts = false ->
+  exists c, sem tm opts = Accept c /\
+    x_parse (xrun tm (prog :: argv)) = OAccepted c (map (selected c) probes) /\
+    (c_repeat c <= REP_CAP ->
+     exists outs text reps, x_applied (xrun tm (prog :: argv)) = Some (AApplied outs text reps) /\
+       (exists o rest, outs = o :: rest /\ o_kind o = c_out c /\ (c_out c = OJUnit -> o_pkg o = c_pkg c)) /\
+       (forall o, In o outs -> o_level o = asked_level opts /\ o_color o = asks DColor opts) /\
+       (asks_list opts = true -> reps = [] /\ doc_list_ok c text = true) /\
+       (asks_list opts = false -> length reps = N.to_nat (c_repeat c) /\ forall r, In r reps ->
+          r_level r = asked_level opts /\ r_color r = asks DColor opts /\
+          (asks_shuffle opts = false -> r_seeds r = [] /\ r_started r = (if asks DReverse opts then rev (natural c) else natural c)) /\
+          (asks_shuffle opts = true -> r_seeds r = [c_seed c mod 4294967296] /\ Permutation (r_started r) (natural c)) /\
+          r_ran r = List.filter (fun i => negb (ignored_id i) || asks DRunIgnored opts) (r_started r) /\
+          r_sep r = (if asks DSepProcess opts then r_started r else []))).
+Proof. exact vector_applied. Qed.
+Print Assumptions C12_vector_applied.
+
+(* -v together with -vv, in any order and multiplicity, anything in between: very verbose on every output and in every repetition *)
+Theorem C12_verbosity_highest_wins : forall tm prog opts argv c outs text reps,
+  forallb opt_ok opts = true -> In argv (render opts) -> sem tm opts = Accept c ->
+  x_applied (xrun tm (prog :: argv)) = Some (AApplied outs text reps) ->
+  (forall o, In o outs -> o_level o = asked_level opts) /\ (forall r, In r reps -> r_level r = asked_level opts).
+Proof. exact verbosity_highest_wins. Qed.
+Print Assumptions C12_verbosity_highest_wins.
+
+(* -b without shuffling reverses EVERY repetition, and there are exactly repeat-count of them ... *)
+Theorem C12_reverse_every_repetition : forall c outs text reps,
+  apply c = AApplied outs text reps -> list_mode c = false -> c_shuf c = false ->
+  length reps = N.to_nat (c_repeat c) /\ forall r, In r reps -> r_started r = (if c_rev c then rev (natural c) else natural c).
+Proof. exact reverse_every_repetition. Qed.
+Print Assumptions C12_reverse_every_repetition.
+
+(* ... all alike (the model's shuffle is the identity: under -s this says nothing about the real order) *)
+Theorem C12_repetitions_alike : forall c outs text reps, apply c = AApplied outs text reps ->
+  forall r1 r2, In r1 reps -> In r2 reps -> r1 = r2.
+Proof. exact repetitions_alike. Qed.
+Print Assumptions C12_repetitions_alike.
+
+(* a runner that reverses inside the repeat loop (red-team change C12-3) does not run every repetition backwards *)
+Theorem C12_reverse_inside_loop_refuted : ~ rev_inside_stmt.
+Proof. exact rev_inside_refuted. Qed.
+Print Assumptions C12_reverse_inside_loop_refuted.
+
+(* -lg / -ln / -ll: the listing is printed and no test runs *)
+Theorem C12_list_modes_run_nothing : forall c outs text reps, apply c = AApplied outs text reps -> list_mode c = true ->
+  reps = [] /\ doc_list_ok c text = true.
+Proof. exact list_modes_run_nothing. Qed.
+Print Assumptions C12_list_modes_run_nothing.
+
+(* the executable oracle for the applied part accepts the model's observation of every configuration *)
+Theorem C12_apply_meets_spec : forall c, apply_ok c (apply c) = true.
+Proof. exact apply_meets_spec. Qed.
+Print Assumptions C12_apply_meets_spec.
+
+(* the executable oracle used on the implementation's observations (parse part and applied part) accepts every observation of the model *)
+Theorem C12_run_meets_spec : forall tm argv opts, valid tm argv = true -> xspec tm argv opts (xrun tm argv) = true.
+Proof. exact xrun_meets_spec. Qed.
 Print Assumptions C12_run_meets_spec.
